@@ -44,6 +44,10 @@ register(PropertySpec(
              "compared, not dropped"),
         Rule("CACHE-FLAG-CONSISTENT", _lazy("cacheidx", "rule_cache_flag_consistent"), 5,
              "(shared with C05) a cached row is replayed with its own truth flag"),
+        Rule("RESET-ALL-EXITS", _lazy("reset", "rule_reset_all_exits"), 2,
+             "(shared with C04) the rows of an evaluation that follows an abandoned one are the rows of the query: the per-evaluation duplicate-suppression state is reset on every exit of evaluate()"),
+        Rule("TRAVERSAL-TOTAL", _lazy("history", "rule_traversal_total"), 2,
+             "(shared with C04) that reset reaches every node of the tree"),
     ],
     explanation="Decides the clause 'the condition vocabulary denotes the ordinary Python operator': the node each "
                 "public comparison/membership entry constructs (arguments mapped to dataclass fields through the MRO "
@@ -77,6 +81,8 @@ register(PropertySpec(
         Rule("NEG-TRUTH", negation.rule_neg_truth, 16,
              "for every (invert, value truthiness, yield_when_false) the mapped-value and predicate-output sites set "
              "_is_false_ = (truthy == invert) and emit iff yield_when_false or not _is_false_"),
+        Rule("VALUE-TRUTH", _lazy("values", "rule_value_truth"), 10,
+             "(shared with C19) the inner steps of an attribute / call chain are values: a falsy intermediate value is mapped on, not dropped"),
     ],
     explanation="Negation is a rewrite at construction time, so it is a function on syntax and is decided from the "
                 "source: the inverse-operator table is extracted by abstract evaluation of the setter's CFG (match / if "
@@ -139,6 +145,8 @@ register(PropertySpec(
         Rule("USERCODE-REACH", modes.rule_usercode_reach, 6,
              "the sites that run user code (predicate call, self._type_(**…), getattr/[]/() on user values, the "
              "comparison operator) are reachable only through the evaluation protocol, hence only under the entries"),
+        Rule("MODE-BRANCH", _lazy("modes", "rule_mode_branch"), 4,
+             "(shared with C08) with symbolic mode off the @predicate wrapper and @symbol constructor take the concrete arm, whatever else is active"),
     ],
     explanation="User predicates and @symbol constructors consult the ambient mode; the result is mode-independent iff "
                 "every public entry switches the mode off around every point at which evaluation runs. That is a "
@@ -181,6 +189,8 @@ register(PropertySpec(
              "(shared with C05) a second evaluation served from an operand cache returns each row as often as the first one"),
         Rule("TRAVERSAL-TOTAL", _lazy("history", "rule_traversal_total"), 2,
              "the recursive reset / invalidation traversals apply themselves to every child on every path (no subtree is skipped)"),
+        Rule("CLEAR-COMPLETE", _lazy("cacheidx", "rule_clear_complete"), 4,
+             "(shared with C20) invalidating a result cache after an abandoned evaluation also withdraws its coverage marks"),
     ],
     explanation="History independence is absence of residue on the shared expression nodes. Decided: where residue is "
                 "written (discovered mechanically from dataclass fields and mutation sites reachable from evaluation "
@@ -221,6 +231,10 @@ register(PropertySpec(
              "_process_result_ implementation"),
         Rule("TRAVERSAL-TOTAL", _lazy("history", "rule_traversal_total"), 2,
              "the recursive reset / invalidation traversals apply themselves to every child on every path (no subtree is skipped)"),
+        Rule("DUP-STABLE", _lazy("lazy", "rule_dup_stable"), 1,
+             "(shared with C04) a domain that lists the solution twice gives one solution on the first evaluation as on later ones"),
+        Rule("CACHE-FLAG-CONSISTENT", _lazy("cacheidx", "rule_cache_flag_consistent"), 5,
+             "(shared with C05) re-evaluating the() replays cached rows with their own truth flag"),
     ],
     explanation="The three outcomes of `the` are decided by a typestate interpretation of its evaluator over the finite "
                 "state space (result None/solution, solutions consumed 0/1/>=2, _is_false_), exception classes resolved "
@@ -398,6 +412,8 @@ register(PropertySpec(
              "the recursive reset / invalidation traversals apply themselves to every child on every path (no subtree is skipped)"),
         Rule("REPLAY-CONTEXT", cacheidx.rule_replay_context, 2,
              "an operand cache is consulted only under the operand truth values for which it is filled"),
+        Rule("CLEAR-COMPLETE", _lazy("cacheidx", "rule_clear_complete"), 4,
+             "(shared with C20) invalidating a result cache after an abandoned evaluation also withdraws its coverage marks"),
     ],
     explanation="Decides that the runtime switch governs reads and writes consistently: the asymmetric state (reads "
                 "unguarded, writes guarded) changes results because an empty lookup marks everything covered. Not "
@@ -439,6 +455,8 @@ register(PropertySpec(
              "expression objects"),
         Rule("REG-INFER", registry.rule_reg_infer, 2,
              "rule inference constructs through the class call (registering arm); nothing else allocates user objects"),
+        Rule("MODE-PAIRING", _lazy("modes", "rule_mode_pairing"), 6,
+             "(shared with C08) which arm of the constructor runs is decided by the mode: it must be restored on every exit of a block"),
     ],
     explanation="Registry discipline is ownership: a single writer, on a must-pass-through path of the concrete "
                 "constructor arm, keyed by the runtime class; the symbolic arm provably (call-graph closure) cannot "
@@ -472,6 +490,8 @@ register(PropertySpec(
         Rule("FORALL-PER-VALUE", forall.rule_forall_per_value, 2,
              "the condition is evaluated inside the loop over universal values under sources extended with the value; "
              "false condition rows are skipped before accumulation"),
+        Rule("MEMO-ON-PULL", _lazy("lazy", "rule_memo_on_pull"), 3,
+             "(shared with C07) for_all leaves the universal domain at the value that falsifies the statement: that value must already be memoised"),
     ],
     explanation="Universal quantification is implemented as a running intersection; that the accumulated set can only "
                 "shrink, is seeded once and is emptied by a value with no satisfying binding is a typestate property of "
@@ -548,6 +568,12 @@ register(PropertySpec(
         Rule("DEDUP-UNKNOWN", _lazy("binding", "rule_dedup_unknown"), 2,
              "a duplicate-suppression key computed for a row of unknown truth (when_true=None) contains whatever is required "
              "for a true or for a false row"),
+        Rule("RESET-ALL-EXITS", _lazy("reset", "rule_reset_all_exits"), 2,
+             "(shared with C04) the rows of an evaluation that follows an abandoned one are the rows of the query: the per-evaluation duplicate-suppression state is reset on every exit of evaluate()"),
+        Rule("TRAVERSAL-TOTAL", _lazy("history", "rule_traversal_total"), 2,
+             "(shared with C04) that reset reaches every node of the tree"),
+        Rule("VALUE-TRUTH", _lazy("values", "rule_value_truth"), 10,
+             "(shared with C19) the inner steps of an attribute / call chain are values: a falsy intermediate value is mapped on, not dropped"),
     ],
     explanation="An implicit join is a join only if every operator threads the binding it received to its operands and "
                 "keeps everything its operands bound. Both are provenance facts on the evaluation call sites and the "
@@ -585,6 +611,8 @@ register(PropertySpec(
              "decide whether to skip, wrap, flatten or accumulate it"),
         Rule("SCALAR-CLASSIFIER", _lazy("aggregates", "rule_scalar_classifier"), 1,
              "the collection / scalar classifier shared by flatten and concatenate excludes strings by isinstance (subclasses of str are scalars)"),
+        Rule("BIND-THREAD", _lazy("binding", "rule_bind_thread"), 30,
+             "(shared with C02) a condition relating the element to its own parent evaluates the second operand under the row of the first"),
     ],
     explanation="UNNEST is 'one row per inner element, all other variables keep the binding that produced it': the "
                 "first half is a path property of one small generator, the second is the BIND-KEEP provenance rule at "
@@ -610,6 +638,10 @@ register(PropertySpec(
         Rule("MEMO-ON-PULL", lazy.rule_memo_on_pull, 3,
              "the raw lazily-consumed source is read only inside HashedIterable; every loop over it stores the pulled "
              "element into `values` before handing it out; the source is wrapped lazily"),
+        Rule("RESET-ALL-EXITS", _lazy("reset", "rule_reset_all_exits"), 2,
+             "(shared with C04) the rows of an evaluation that follows an abandoned one are the rows of the query: the per-evaluation duplicate-suppression state is reset on every exit of evaluate()"),
+        Rule("TRAVERSAL-TOTAL", _lazy("history", "rule_traversal_total"), 2,
+             "(shared with C04) that reset reaches every node of the tree"),
     ],
     explanation="Laziness is preserved iff nothing on the path from the user's domain to the user's next() materialises a "
                 "stream. That is a may-materialise taint analysis over every function that handles evaluation streams or "
@@ -679,6 +711,12 @@ register(PropertySpec(
              "(shared with C02) selection order: every selected expression keeps what it bound"),
         Rule("BIND-THREAD", _lazy("binding", "rule_bind_thread"), 30,
              "(shared with C02) operand order: each operand is evaluated under what the other bound"),
+        Rule("FORALL-MONOTONE", _lazy("forall", "rule_forall_monotone"), 8,
+             "(shared with C10) permuting the universal domain: the accumulated set only shrinks, is seeded by the first value only and never re-seeded"),
+        Rule("ROW-FRESH", _lazy("extra", "rule_row_fresh"), 1,
+             "(shared with C02) the order of selected variables: the binding is not extended in place across the values of one selected variable"),
+        Rule("PRODUCT", _lazy("binding", "rule_product"), 1,
+             "(shared with C02) unrelated selected variables are combined by an all-combinations combinator"),
     ],
     explanation="Two of the six listed rewrites are decided: mirrored comparisons and contains/in_, by the OPDEN "
                 "denotation rule (C01). Commutativity/associativity of and/or, declaration/selection order and domain "
